@@ -186,6 +186,7 @@ func executeRun(sc *scenario, tier string, tape *Tape, stats *Stats, tracing boo
 			}
 		}()
 		simrt.SetMapSeed(0)
+		ctorMode = tape.Intn(2) == 1
 		sc.Run(c)
 	}()
 	res.Index = index
